@@ -72,6 +72,9 @@ type seqCase struct {
 	FileType int       `json:"file_type"`
 	Items    []seqItem `json:"items"`
 	Text     string    `json:"text,omitempty"`
+	// Chunk: the stream is also decoded through this chunking (short reads,
+	// empty reads, long pauses); the File must be the same
+	Chunk *gen.Chunking `json:"chunking,omitempty"`
 }
 
 var dstOrSrc = map[string]bool{}
@@ -241,6 +244,17 @@ func checkSeq(rec *hx.Recorder, c seqCase) (string, bool) {
 	if msg, ok := checkAccessors(f, fit.FileType(c.FileType)); !ok {
 		return msg + "\nstream: " + text, false
 	}
+	if c.Chunk != nil {
+		var fc *fit.File
+		var cerr error
+		p := oracle.Catch(func() { fc, cerr = fit.Decode(gen.NewReader(s.Bytes(), *c.Chunk)) })
+		if p != nil || cerr != nil {
+			return fmt.Sprintf("Decode through chunking %v: panic=%v err=%v\nstream: %s", *c.Chunk, p, cerr, text), false
+		}
+		if d1, d2 := prof.Digest(f, prof.DigestOpts{}), prof.Digest(fc, prof.DigestOpts{}); d1 != d2 {
+			return fmt.Sprintf("Decode through chunking %v gives a different File\nwhole:\n%s\nchunked:\n%s\nstream: %s", *c.Chunk, d1, d2, text), false
+		}
+	}
 	// where messages are put does not depend on the concrete type of the
 	// reader (one reader kind per case, chosen by the case's content)
 	kinds := gen.ReaderKinds(os.Getenv("VERIF_BUILD"))
@@ -387,6 +401,10 @@ func drawSeq(d gen.D) seqCase {
 			it.Tail = d.Int(1, 3, "tailkind")
 		}
 		c.Items = append(c.Items, it)
+	}
+	if d.Int(0, 3, "chunked") == 0 {
+		ch := gen.DrawChunking(d)
+		c.Chunk = &ch
 	}
 	return c
 }
